@@ -2,7 +2,7 @@
 From Coq Require Extraction.
 From Coq Require Import ExtrOcamlBasic.
 From SQ Require Import lib.Base.
-From SQ Require model.Varint model.Frame model.PacketHeader model.TpGrammar model.PnExpand model.Fit.
+From SQ Require model.Varint model.Frame model.PacketHeader model.TpGrammar model.PnExpand model.Fit model.ShortBits.
 Extraction Language OCaml.
 
 Definition varint_run := Varint.run.
@@ -21,4 +21,6 @@ Definition pnx_run := PnExpand.run.
 Definition pnx_judge := PnExpand.judge.
 Definition fit_run := Fit.run.
 Definition fit_judge := Fit.judge.
-Extraction "../ocaml/gen/C05/model.ml" varint_run varint_judge frames_run frames_judge packets_run packets_judge pn_run pn_judge tparams_run tparams_judge tparams_total_run tparams_total_judge pnx_run pnx_judge fit_run fit_judge.
+Definition shortbits_run := ShortBits.run.
+Definition shortbits_judge := ShortBits.judge.
+Extraction "../ocaml/gen/C05/model.ml" varint_run varint_judge frames_run frames_judge packets_run packets_judge pn_run pn_judge tparams_run tparams_judge tparams_total_run tparams_total_judge pnx_run pnx_judge fit_run fit_judge shortbits_run shortbits_judge.
